@@ -38,6 +38,12 @@ package main
 // program compiled alone in a fresh process and reported as
 // c08-process-state-history with the concrete history as the replay.
 //
+// A step of a history is not only a compilation: pacts.go adds the other step
+// kinds (streaming sessions, CompileFile, CompileSSA, Compute, Garble/Eval,
+// Marshal/Parse round trips) and the activity histories built from them; a
+// pStep carries its kind and the parties' inputs, minimisation and replay work
+// on steps of any kind.
+//
 // Model ops (`phist`): for the wide-const-divmod / wide-const-arith groups the
 // Lean model of a compilation step (Model/ProcState.lean: a function of source,
 // parameters and process state) must produce the folded constants of every
@@ -877,7 +883,7 @@ func (pr *pRunner) reportPFailure(o *hxlib.Out, seed uint64, tier string, sa *pS
 	prog := sa.Progs[sa.Steps[ia].Prog]
 	d := map[string]any{
 		"program": prog.Name, "family": prog.Family, "attributes": prog.Attr, "variant": prog.Variant, "sizes": fmt.Sprint(prog.Sizes),
-		"source":   clipS(prog.Src, 3000),
+		"source": clipS(prog.Src, 3000),
 		"found_in": fmt.Sprintf("process %q step %d (%s)  vs  process %q step %d (%s)", sa.Name, ia+1, stepKind(sa.Steps[ia]), sb.Name, ib+1,
 			stepKind(sb.Steps[ib])),
 		"a": ra.String(), "b": rb.String(),
@@ -917,7 +923,11 @@ func (pr *pRunner) reportPFailure(o *hxlib.Out, seed uint64, tier string, sa *pS
 		if minimiseIt {
 			bad, trials = pr.minimise(bad, p0, cmp, 40)
 		}
+		// pooled objects are per P and the scheduler decides who finds them: a history may need more than one run
 		brs, bdir := pr.run(bad)
+		for try := 0; try < 3 && brs != nil && cmp(brs[len(brs)-1], p0); try++ {
+			brs, bdir = pr.run(bad)
+		}
 		if brs != nil && !cmp(brs[len(brs)-1], p0) {
 			last := brs[len(brs)-1]
 			d["after_the_history"] = last.String()
@@ -953,7 +963,7 @@ func (pr *pRunner) reportPFailure(o *hxlib.Out, seed uint64, tier string, sa *pS
 
 // ---------------------------------------------------------------- main
 
-func parsePExtra(extra string) (focus map[string]bool, scale int, replay string, heavy bool) {
+func parsePExtra(extra string) (focus map[string]bool, scale int, replay string, heavy bool, acts string) {
 	focus = map[string]bool{}
 	scale = 1
 	for _, kv := range strings.Split(extra, ";") {
@@ -971,6 +981,10 @@ func parsePExtra(extra string) (focus map[string]bool, scale int, replay string,
 			replay = v
 		case "heavy":
 			heavy = v != "" && v != "0"
+		case "acts":
+			// activity histories (pacts.go): "" = one per group + one over all groups; full = every kind with
+			// same-width and other-width actors; off = none
+			acts = v
 		}
 	}
 	if scale < 1 {
@@ -990,7 +1004,7 @@ func runPState(cf *hxlib.CommonFlags, o *hxlib.Out) {
 	defer os.RemoveAll(work)
 	self, _ := os.Executable()
 	pr := &pRunner{self: self, work: work}
-	focus, scale, replay, heavy := parsePExtra(cf.Extra)
+	focus, scale, replay, heavy, acts := parsePExtra(cf.Extra)
 	if replay != "" {
 		replayPState(pr, o, replay)
 		return
@@ -1003,6 +1017,9 @@ func runPState(cf *hxlib.CommonFlags, o *hxlib.Out) {
 	}
 	progs := genPGroups(cf.Seed, tier, focus, scale)
 	specs := buildPSpecs(cf.Seed, progs)
+	if acts != "off" {
+		specs = append(specs, buildActivitySpecs(cf.Seed, progs, acts == "full" || cf.Tier != "quick")...)
+	}
 	par := cf.N
 	if par <= 0 {
 		par = 8
@@ -1013,11 +1030,15 @@ func runPState(cf *hxlib.CommonFlags, o *hxlib.Out) {
 	for _, p := range progs {
 		o.Count("pstate_programs_" + p.Family)
 	}
-	// compare all compilations of each program
+	// compare all compilations of each program (whatever the kind of the step
+	// they happened in) and all steps of one (program, kind, inputs)
 	type occ struct{ spec, step int }
 	first := map[int]occ{}
+	firstC := map[string]occ{}
+	firstV := map[string]occ{}
 	type diff struct {
 		a, b occ
+		full bool // steps of one (program, kind, inputs): full outputs; otherwise the compilations inside
 	}
 	var diffs []diff
 	okProcs := 0
@@ -1031,30 +1052,85 @@ func runPState(cf *hxlib.CommonFlags, o *hxlib.Out) {
 		o.Count("pstate_processes_" + specs[si].Kind)
 		for i, r := range rs {
 			id := specs[si].Progs[r.Prog].ID
-			o.Count("pstate_compilations")
-			o.CountN("pstate_compile_ms_"+progs[id].Family, int(r.Ms))
-			if specs[si].Steps[i].Fresh {
-				o.Count("pstate_compilations_fresh_compiler")
-			} else {
-				o.Count("pstate_compilations_long_lived_compiler")
-			}
-			if r.Err == "" {
-				compiled[id] = true
-			}
-			f, ok := first[id]
-			if !ok {
+			st := specs[si].Steps[i]
+			k := stepKind(st)
+			if _, ok := first[id]; !ok {
 				first[id] = occ{si, i}
-				continue
 			}
-			o.Count("pstate_comparisons")
-			if f.spec == si {
-				o.Count("pstate_comparisons_same_process")
-			} else {
-				o.Count("pstate_comparisons_cross_process")
+			o.Count("pstate_steps_" + k)
+			if k != kCompile {
+				o.CountN("pstate_step_ms_"+k, int(r.Ms))
+				if r.Err == "" && (r.Status == "ok" || r.Status == "") {
+					o.Count("pstate_steps_ok_" + k)
+				} else {
+					o.Count("pstate_steps_not_ok_" + k)
+					if len(o.Samples) < 8 {
+						o.Sample(map[string]any{"pstate_step_not_ok": k, "program": progs[id].Name, "inputs": st.In, "status": r.Status, "err": r.Err})
+					}
+				}
+				if isStreamKind(k) && r.Status == "ok" {
+					o.Count("pstate_streaming_sessions_ok")
+					if len(r.GC) > 0 {
+						o.Count("pstate_streaming_sessions_recycling_arguments")
+					}
+				}
 			}
-			if !results[f.spec][f.step].same(r) {
-				o.Count("pstate_diff_" + progs[id].Family)
-				diffs = append(diffs, diff{f, occ{si, i}})
+			// the compilation inside the step
+			ckey := ""
+			switch k {
+			case kCompile, kCompute, kGarbleEval, kRoundtrip:
+				ckey = fmt.Sprintf("c|%d", id)
+			case kCompileFile:
+				ckey = fmt.Sprintf("f|%d", id)
+			}
+			if ckey != "" {
+				o.Count("pstate_compilations")
+				o.CountN("pstate_compile_ms_"+progs[id].Family, int(r.Ms))
+				if k == kCompile {
+					if st.Fresh {
+						o.Count("pstate_compilations_fresh_compiler")
+					} else {
+						o.Count("pstate_compilations_long_lived_compiler")
+					}
+				} else {
+					o.Count("pstate_compilations_inside_" + k)
+				}
+				if r.Err == "" && k == kCompile {
+					compiled[id] = true
+				}
+				if f, ok := firstC[ckey]; !ok {
+					firstC[ckey] = occ{si, i}
+				} else {
+					o.Count("pstate_comparisons")
+					if f.spec == si {
+						o.Count("pstate_comparisons_same_process")
+					} else {
+						o.Count("pstate_comparisons_cross_process")
+					}
+					if specs[si].Kind == "activities" || specs[si].Kind == "cross-activities" {
+						o.Count("pstate_comparisons_after_activities")
+						if i > 0 && isStreamKind(stepKind(specs[si].Steps[i-1])) {
+							o.Count("pstate_comparisons_after_streaming_session")
+						}
+					}
+					if !results[f.spec][f.step].sameCircuit(r) {
+						o.Count("pstate_diff_" + progs[id].Family)
+						diffs = append(diffs, diff{f, occ{si, i}, false})
+					}
+				}
+			}
+			// the whole step
+			if k != kCompile && k != kCompileFile {
+				vkey := fmt.Sprintf("%d|%s|%s", id, k, strings.Join(st.In, ","))
+				if f, ok := firstV[vkey]; !ok {
+					firstV[vkey] = occ{si, i}
+				} else {
+					o.Count("pstate_comparisons_step_outputs")
+					if !results[f.spec][f.step].same(r) {
+						o.Count("pstate_diff_step_" + k)
+						diffs = append(diffs, diff{f, occ{si, i}, true})
+					}
+				}
 			}
 		}
 	}
@@ -1110,8 +1186,12 @@ func runPState(cf *hxlib.CommonFlags, o *hxlib.Out) {
 		}
 		perFam[fam]++
 		reported++
+		cmp := (*pStepRes).sameCircuit
+		if df.full {
+			cmp = (*pStepRes).same
+		}
 		pr.reportPFailure(o, cf.Seed, cf.Tier, specs[df.a.spec], df.a.step, results[df.a.spec][df.a.step],
-			specs[df.b.spec], df.b.step, results[df.b.spec][df.b.step], reported <= 2)
+			specs[df.b.spec], df.b.step, results[df.b.spec][df.b.step], cmp, reported <= 2)
 	}
 	// model ops: the one-compiler history of every group with modelled folds
 	for si, sp := range specs {
@@ -1141,6 +1221,36 @@ func runPState(cf *hxlib.CommonFlags, o *hxlib.Out) {
 		o.Op("phist "+strings.Join(steps, ";"), strings.Join(want, ";"))
 		o.Count("op_phist")
 		o.CountN("op_phist_steps", len(steps))
+	}
+	// model ops: the activity histories (all step kinds) of the groups whose programs are modelled
+	for si, sp := range specs {
+		if (sp.Kind != "activities" && sp.Kind != "cross-activities") || results[si] == nil {
+			continue
+		}
+		// cut the history down to the steps of modelled programs (the model's
+		// step does not look at the process state: any sub-history is a history)
+		sub := &pSpec{Name: sp.Name, Kind: sp.Kind, Progs: sp.Progs}
+		var rs []*pStepRes
+		for i, st := range sp.Steps {
+			if len(sp.Progs[st.Prog].Rets) > 0 && results[si][i].Err == "" {
+				sub.Steps = append(sub.Steps, st)
+				rs = append(rs, results[si][i])
+			}
+		}
+		if len(sub.Steps) == 0 {
+			continue
+		}
+		op, want, ok := ahistOp(sub, rs)
+		if !ok {
+			o.Count("op_ahist_skipped")
+			continue
+		}
+		o.Op(op, want)
+		o.Count("op_ahist")
+		o.CountN("op_ahist_steps", len(sub.Steps))
+		for _, st := range sub.Steps {
+			o.Count("op_ahist_steps_" + kindLetter(stepKind(st)))
+		}
 	}
 	_ = dirs
 	if len(progs) > 0 {
@@ -1179,10 +1289,25 @@ func replayPState(pr *pRunner, o *hxlib.Out, file string) {
 		o.Fail("c08-pstate-child-failed", map[string]any{"process": "replay"})
 		return
 	}
+	la, lb := rs.History.Steps[len(hr)-1], rs.Reference.Steps[len(rr)-1]
+	eq := func(a, bb *pStepRes) bool {
+		if stepKind(la) == stepKind(lb) && strings.Join(la.In, ",") == strings.Join(lb.In, ",") {
+			return a.same(bb)
+		}
+		return a.sameCircuit(bb)
+	}
+	// the same history may need more than one run (scheduling decides which P finds a pooled object)
+	for try := 0; try < 3 && eq(hr[len(hr)-1], rr[len(rr)-1]); try++ {
+		if h2, d2 := pr.run(rs.History); h2 != nil {
+			hr, hdir = h2, d2
+		}
+		o.Count("pstate_replay_reruns")
+	}
 	a, bb := hr[len(hr)-1], rr[len(rr)-1]
+	equal := eq(a, bb)
 	o.Meta["replay"] = map[string]any{"history": describeHistory(rs.History), "reference": describeHistory(rs.Reference),
-		"after_the_history": a.String(), "reference_output": bb.String(), "equal": a.same(bb)}
-	if a.same(bb) {
+		"after_the_history": a.String(), "reference_output": bb.String(), "equal": equal}
+	if equal {
 		o.Count("pstate_replay_not_reproduced")
 		return
 	}
